@@ -14,6 +14,9 @@ import (
 	"time"
 
 	z "github.com/Oudwins/zog"
+	"github.com/Oudwins/zog/conf"
+	"github.com/Oudwins/zog/i18n/en"
+	"github.com/Oudwins/zog/zconst"
 	"zogverif/mc"
 	"zogverif/zh"
 )
@@ -35,6 +38,7 @@ type c19Schema struct {
 	owned  []*c19Owned
 	events []c19Event
 	inputs []*c19Owned // inputs handed to Parse (kept across events, must never change)
+	objects []*c19Owned // the schema objects themselves (every field, exported or not, at any depth)
 }
 
 func c19MutStrings(ptr any, ctx z.Ctx) error {
@@ -79,6 +83,7 @@ func c19Schemas() []func() *c19Schema {
 			inTyped := []string{"p", "q", "r"}
 			own(&s.inputs, "input []any", in)
 			own(&s.inputs, "input []string", inTyped)
+			own(&s.objects, "schema object", sc)
 			s.events = []c19Event{
 				{"Parse(nil) default taken", func() (string, any) { var d []string; m := sc.Parse(nil, &d); return c19Obs(m, d), d }},
 				{"Parse([]any{p,q})", func() (string, any) { var d []string; m := sc.Parse(in, &d); return c19Obs(m, d), d }},
@@ -108,6 +113,7 @@ func c19Schemas() []func() *c19Schema {
 			inEmpty := map[string]any{}
 			own(&s.inputs, "input map", in)
 			own(&s.inputs, "input empty map", inEmpty)
+			own(&s.objects, "schema object", sc)
 			s.events = []c19Event{
 				{"Parse({}) defaults taken", func() (string, any) { var d c19D2; m := sc.Parse(inEmpty, &d); return c19Obs(m, d), d.L }},
 				{"Parse(full map)", func() (string, any) { var d c19D2; m := sc.Parse(in, &d); return c19Obs(m, d), d.L }},
@@ -138,6 +144,7 @@ func c19Schemas() []func() *c19Schema {
 			sc := z.Slice(z.Slice(z.Int())).Default(def).PostTransform(mut)
 			in := []any{[]any{1, 2}, []int{3}}
 			own(&s.inputs, "input nested", in)
+			own(&s.objects, "schema object", sc)
 			s.events = []c19Event{
 				{"Parse(nil) default taken", func() (string, any) { var d [][]int; m := sc.Parse(nil, &d); return c19Obs(m, d), d }},
 				{"Parse(nested input)", func() (string, any) { var d [][]int; m := sc.Parse(in, &d); return c19Obs(m, d), d }},
@@ -159,6 +166,7 @@ func c19Schemas() []func() *c19Schema {
 			inDef := map[string]any{"p": "", "n": nil}
 			own(&s.inputs, "input map with typed slice", in)
 			own(&s.inputs, "input map absent values", inDef)
+			own(&s.objects, "schema object", sc)
 			s.events = []c19Event{
 				{"Parse(present)", func() (string, any) {
 					var d c19D4
@@ -184,6 +192,7 @@ func c19Schemas() []func() *c19Schema {
 			def := []string{"a", "b"}
 			own(&s.owned, "slice default", def)
 			sc := z.Slice(z.String().PostTransform(func(p any, ctx z.Ctx) error { *(p.(*string)) += "!"; return nil })).Default(def)
+			own(&s.objects, "schema object", sc)
 			s.events = []c19Event{
 				{"Validate(nil) default taken", func() (string, any) { var d []string; m := sc.Validate(&d); return c19Obs(m, d), d }},
 				{"Validate(empty) default taken", func() (string, any) { d := []string{}; m := sc.Validate(&d); return c19Obs(m, d), d }},
@@ -206,6 +215,8 @@ func c19Schemas() []func() *c19Schema {
 				return nil
 			})
 			plain := z.Slice(z.Int()).Default(def2)
+			own(&s.objects, "second schema object", plain)
+			own(&s.objects, "schema object", sc)
 			s.events = []c19Event{
 				{"Struct.Validate(zero) default taken, struct PostTransform mutates l", func() (string, any) { var d D; m := sc.Validate(&d); return c19Obs(m, d), d.L }},
 				{"Struct.Parse({}) default taken", func() (string, any) { var d D; m := sc.Parse(map[string]any{}, &d); return c19Obs(m, d), d.L }},
@@ -231,6 +242,8 @@ func c19Schemas() []func() *c19Schema {
 			own(&s.owned, "Params option map", prm)
 			sc := z.String().Min(5).OneOf(list).TestFunc(func(v any, ctx z.Ctx) bool { return false }, z.Params(prm), z.IssueCode("custom"))
 			caught := z.String().Min(5).OneOf(list).Catch("alpha-beta")
+			own(&s.objects, "second schema object", caught)
+			own(&s.objects, "schema object", sc)
 			s.events = []c19Event{
 				{"Parse(ab) fails three tests", func() (string, any) { var d string; l := sc.Parse("ab", &d); return c19Obs(l, d), nil }},
 				{"Parse(ab) fails, issues collected", func() (string, any) {
@@ -261,6 +274,7 @@ func c19Schemas() []func() *c19Schema {
 			})
 			in := []int{1, 2, 3}
 			own(&s.inputs, "input []int", in)
+			own(&s.objects, "schema object", sc)
 			s.events = []c19Event{
 				{"Parse([]int{1,2,3})", func() (string, any) { var d []int; m := sc.Parse(in, &d); return c19Obs(m, d), nil }},
 			}
@@ -279,6 +293,7 @@ func c19Schemas() []func() *c19Schema {
 			own(&s.inputs, "input struct", &in)
 			own(&s.inputs, "input *struct", inP)
 			own(&s.inputs, "input map[string]string", inM)
+			own(&s.objects, "schema object", sc)
 			s.events = []c19Event{
 				{"Parse(struct value)", func() (string, any) { var d c19D6; m := sc.Parse(in, &d); return c19Obs(m, d), d.L }},
 				{"Parse(*struct)", func() (string, any) { var d c19D6; m := sc.Parse(inP, &d); return c19Obs(m, d), d.L }},
@@ -335,6 +350,15 @@ func c19Scenario(si int, depth int) mc.Scenario {
 		s := mk()
 		out := &mc.Outcome{Nontrivial: true}
 		var hist []string
+		// the formatter in force: the stock one, or the stock formatter over a message table whose every
+		// template mentions every placeholder ({{value}} and the test's parameters)
+		fm := x.Choose(2, "formatter")
+		if fm == 1 {
+			saved := conf.IssueFormatter
+			conf.IssueFormatter = conf.NewDefaultFormatter(c19ValueLangMap())
+			defer func() { conf.IssueFormatter = saved }()
+			hist = append(hist, "global formatter: stock formatter over templates containing {{value}}")
+		}
 		firstObs := map[int]string{}
 		for step := 0; step < depth; step++ {
 			if step > 0 && x.Choose(2, "more") == 0 {
@@ -355,6 +379,10 @@ func c19Scenario(si int, depth int) mc.Scenario {
 				}()
 				obs, dest = s.events[ei].run()
 			}()
+			if fm == 1 {
+				// {{value}} renders the issue's Value, a pointer to the destination: its address differs from call to call
+				obs = c06HexRe.ReplaceAllString(obs, "0xADDR")
+			}
 			out.Traces++
 			fail := func(key, what, exp, got string) {
 				x.Note("schema: %s", s.name)
@@ -368,6 +396,12 @@ func c19Scenario(si int, depth int) mc.Scenario {
 				}
 				if sharesMemory(dest, o.val) {
 					fail("C19:dest-aliases-schema:"+o.name, fmt.Sprintf("the destination shares backing memory with the schema's %s after %q", o.name, s.events[ei].name), "independent memory", "same backing array")
+					return out
+				}
+			}
+			for _, o := range s.objects {
+				if now := zh.CanonStringHidden(o.val); now != o.snap {
+					fail("C19:schema-object-modified", fmt.Sprintf("the schema object itself (%s) reads differently after execution %q", o.name, s.events[ei].name), o.snap, now)
 					return out
 				}
 			}
@@ -393,6 +427,21 @@ func c19Scenario(si int, depth int) mc.Scenario {
 	}
 }
 
+var c19LangMap zconst.LangMap
+
+func c19ValueLangMap() zconst.LangMap {
+	if c19LangMap == nil {
+		c19LangMap = zconst.LangMap{}
+		for dt, codes := range en.Map {
+			c19LangMap[dt] = map[zconst.ZogIssueCode]string{}
+			for code, msg := range codes {
+				c19LangMap[dt][code] = "got {{value}}: " + msg
+			}
+		}
+	}
+	return c19LangMap
+}
+
 func c19Depth(tier string) int {
 	if tier == "thorough" {
 		return 4
@@ -403,7 +452,7 @@ func c19Depth(tier string) int {
 func init() {
 	Register(&Prop{
 		ID:    "C19",
-		Rule:  "one execution = one sequence of ≤depth calls (Parse/Validate, absent/present inputs given as maps, []any, typed slices, structs, pointers) on ONE schema object whose PostTransforms overwrite and append to their destination; after every call: deep snapshot (incl. hidden capacity) of every value handed to a builder (slice/nested defaults, OneOf lists, Contains params) and of every input is unchanged, the destination shares no backing array with them, and a repeated call observes exactly what its first occurrence observed; every sequence is non-trivial; distinct = distinct (schema, call sequence)",
+		Rule:  "one execution = one sequence of ≤depth calls (Parse/Validate, absent/present inputs given as maps, []any, typed slices, structs, pointers) under {stock formatter, stock formatter over templates that mention {{value}}} on ONE schema object whose PostTransforms overwrite and append to their destination; after every call: deep snapshot (incl. hidden capacity) of every value handed to a builder (slice/nested defaults, OneOf lists, Contains params) and of every input is unchanged, the schema object itself (every field at any depth, incl. each test's parameter map) is unchanged, the destination shares no backing array with them, and a repeated call observes exactly what its first occurrence observed; every sequence is non-trivial; distinct = distinct (schema, call sequence)",
 		Floor: 20,
 		Bound: func(tier string) string { return fmt.Sprintf("all call sequences of length ≤%d over 9 schema families, every field visit order", c19Depth(tier)) },
 		Assumptions: []string{"mutating callbacks only write through the pointer they are given"},
